@@ -141,6 +141,8 @@ func (c *pcCtx) parts(e ast.Expr) (pre []string, code string, mon bool) {
 			return pre, "Go.nth " + a + " " + pcP(i), true
 		case strings.HasPrefix(lt, "(Map "):
 			return pre, "Go.mapGet " + a + " " + pcP(i), false
+		case strings.HasPrefix(lt, "(Option (List "):
+			return pre, "Go.onth " + a + " " + pcP(i), true
 		}
 		pgFail("index into %s", norm(x.X))
 	case *ast.SliceExpr:
@@ -527,6 +529,11 @@ func (c *pcCtx) call(x *ast.CallExpr) (pre []string, code string, mon bool) {
 			v := c.arg(x.Args[0], to, &pre)
 			return pre, v, false
 		}
+		if c.g.term != nil {
+			if p, code, ok := c.termConversion(x); ok {
+				return p, code, false
+			}
+		}
 		pgFail("conversion %s is outside the subset", norm(x))
 	}
 	var obj types.Object
@@ -679,6 +686,11 @@ func (c *pcCtx) externCall(x *ast.CallExpr, o *types.Func, recv ast.Expr) (pre [
 	sig := o.Type().(*types.Signature)
 	full := o.FullName()
 	full = strings.Replace(full, "github.com/opsidian/parsley/", "", 1)
+	if c.g.term != nil {
+		if p, code, mon, ok := c.termExtern(x, o, recv); ok {
+			return p, code, mon
+		}
+	}
 	if c.g.tree != nil {
 		switch full {
 		case "parsley.Parse":
@@ -758,6 +770,9 @@ func (c *pcCtx) builtin(name string, x *ast.CallExpr) (pre []string, code string
 		lt := c.typ(c.info.TypeOf(x.Args[0]))
 		if strings.HasPrefix(lt, "(List ") || lt == "Bytes" {
 			return pre, "Go.len " + pcP(c.atom(x.Args[0], &pre)), false
+		}
+		if strings.HasPrefix(lt, "(Option (List ") {
+			return pre, "Go.olen " + pcP(c.atom(x.Args[0], &pre)), false
 		}
 	case "append":
 		if len(x.Args) == 2 && !x.Ellipsis.IsValid() {
